@@ -22,6 +22,7 @@ def run(res, tier, build_ok):
     drv = Driver()
     sgio, iscsi = sys.modules["sgio"], sys.modules["iscsi"]
     from pyscsi.pyscsi.scsi_device import SCSIDevice
+    from pyscsi.utils import init_device
     from pyscsi.pyiscsi.iscsi_device import ISCSIDevice
     from pyscsi.pyscsi.scsi import SCSI
     from pyscsi.pyscsi.scsi_cdb_testunitready import TestUnitReady
@@ -42,7 +43,20 @@ def run(res, tier, build_ok):
             return status["v"], bytearray([0x70, 0, 5] + [0] * 15)
 
         sgio.BACKEND = backend
-        dev = SCSIDevice(PATH, readwrite=rw, detect_replugged=detect)
+        # how the application got the device: the constructor with explicit flags, the constructor with its
+        # defaults, or pyscsi.utils.init_device (what the tools and examples use) — detection is on by default
+        how = rng.choice(["ctor", "ctor", "ctor-default", "init_device", "init_device-kw"])
+        if how == "ctor":
+            dev = SCSIDevice(PATH, readwrite=rw, detect_replugged=detect)
+        else:
+            detect = True
+            if how == "ctor-default":
+                dev = SCSIDevice(PATH, rw)
+            elif how == "init_device":
+                dev = init_device(PATH, rw)
+            else:
+                dev = init_device(PATH, read_write=rw)
+        res.count("device obtained via " + how)
         n = rng.randint(1, 10)
         evs = []
         for _ in range(n):
@@ -63,11 +77,11 @@ def run(res, tier, build_ok):
                     o = "sent%d" % hid
                     if detect and (not is_open or hino != node):
                         res.violation("stale handle", "a command was sent through a handle that is %s / opened on inode %s while the node is %s" % (
-                            "open" if is_open else "closed", hino, node), {"detect": detect, "events": evs, "send": sends[-1]})
+                            "open" if is_open else "closed", hino, node), {"detect": detect, "obtained_via": how, "readwrite": rw, "events": evs, "send": sends[-1]})
                     if not detect and hid != 0:
                         res.violation("detection off reopened", "with detection disabled a new handle was opened", {"events": evs})
                 elif detect and vos.nodes.get(PATH) is None and not o.startswith("err"):
-                    res.violation("vanished node not reported", "execute on a vanished node did not raise", {"events": evs})
+                    res.violation("vanished node not reported", "execute on a vanished node did not raise", {"events": evs, "obtained_via": how, "readwrite": rw})
                 obs.append(o)
             elif e == "r":
                 vos.replug(PATH)
